@@ -263,13 +263,20 @@ class MiniMallocate(RewritePattern):
                 buffer_ops[buffer.id] = op
 
                 # add uses to the use list
-                for use in op.results[0].uses:
-                    use_op = get_top_level_op(use.operation)
-                    uses[use_op].append(buffer)
-                    if isinstance(use.operation, builtin.UnrealizedConversionCastOp):
-                        for cast_use in use.operation.results[0].uses:
-                            cast_use_op = get_top_level_op(cast_use.operation)
-                            uses[cast_use_op].append(buffer)
+                # the buffer is in use as long as the alloc result, its memref
+                # conversion cast, or any view or cast of that memref is used
+                values_to_trace: list[SSAValue] = [op.results[0]]
+                while values_to_trace:
+                    value = values_to_trace.pop()
+                    for use in value.uses:
+                        use_op = get_top_level_op(use.operation)
+                        uses[use_op].append(buffer)
+                        if isinstance(use.operation, builtin.UnrealizedConversionCastOp):
+                            values_to_trace.extend(use.operation.results)
+                        else:
+                            values_to_trace.extend(
+                                result for result in use.operation.results if isa(result.type, builtin.MemRefType)
+                            )
 
             if op in uses:
                 # udpate lifetime of buffer
